@@ -235,6 +235,106 @@ func pieces(fn *ast.FuncDecl) []string {
 	return out
 }
 
+// ---------------------------------------------------------------- pad functions
+//
+// mk2 / mk3 : func(n int) string, transcribed statement by statement into Cal.PadStmt.
+// Anything that is not `switch n {case ints: return E}`, `if n < K {return E} [else {return E}]`
+// or `return E` with E = [string literal +] strconv.Itoa(n) becomes `.unknown`.
+func padExpr(e ast.Expr, param string) (string, bool) {
+	isItoa := func(x ast.Expr) bool {
+		c, ok := x.(*ast.CallExpr)
+		if !ok || len(c.Args) != 1 {
+			return false
+		}
+		sel, ok := c.Fun.(*ast.SelectorExpr)
+		if !ok || sel.Sel.Name != "Itoa" {
+			return false
+		}
+		id, ok := c.Args[0].(*ast.Ident)
+		return ok && id.Name == param
+	}
+	if isItoa(e) {
+		return "⟨[]⟩", true
+	}
+	if be, ok := e.(*ast.BinaryExpr); ok && be.Op == token.ADD && isItoa(be.Y) {
+		if l, ok := be.X.(*ast.BasicLit); ok && l.Kind == token.STRING {
+			if str, err := strconv.Unquote(l.Value); err == nil {
+				var xs []int64
+				for _, r := range str {
+					xs = append(xs, int64(r))
+				}
+				return "⟨" + natList(xs) + "⟩", true
+			}
+		}
+	}
+	return "", false
+}
+
+func retExpr(s ast.Stmt, param string) (string, bool) {
+	if blk, ok := s.(*ast.BlockStmt); ok {
+		if len(blk.List) != 1 {
+			return "", false
+		}
+		s = blk.List[0]
+	}
+	r, ok := s.(*ast.ReturnStmt)
+	if !ok || len(r.Results) != 1 {
+		return "", false
+	}
+	return padExpr(r.Results[0], param)
+}
+
+func padProgram(fn *ast.FuncDecl) string {
+	if fn == nil || fn.Type.Params == nil || len(fn.Type.Params.List) != 1 || len(fn.Type.Params.List[0].Names) != 1 {
+		return "[.unknown]"
+	}
+	param := fn.Type.Params.List[0].Names[0].Name
+	var out []string
+	for _, st := range fn.Body.List {
+		item := ".unknown"
+		switch x := st.(type) {
+		case *ast.ReturnStmt:
+			if e, ok := retExpr(x, param); ok {
+				item = ".ret " + e
+			}
+		case *ast.SwitchStmt:
+			if id, ok := x.Tag.(*ast.Ident); ok && id.Name == param && x.Init == nil && len(x.Body.List) == 1 {
+				cc := x.Body.List[0].(*ast.CaseClause)
+				var cs []int64
+				good := len(cc.List) > 0 && len(cc.Body) == 1
+				for _, c := range cc.List {
+					v, ok := evalConst(c, 0)
+					if !ok || v < 0 {
+						good = false
+					}
+					cs = append(cs, v)
+				}
+				if good {
+					if e, ok := retExpr(cc.Body[0], param); ok {
+						item = ".switchRet " + natList(cs) + " " + e
+					}
+				}
+			}
+		case *ast.IfStmt:
+			if be, ok := x.Cond.(*ast.BinaryExpr); ok && be.Op == token.LSS && x.Init == nil {
+				if id, ok := be.X.(*ast.Ident); ok && id.Name == param {
+					if k, ok := evalConst(be.Y, 0); ok && k >= 0 {
+						if t, ok := retExpr(x.Body, param); ok {
+							if x.Else == nil {
+								item = fmt.Sprintf(".ifLt %d %s none", k, t)
+							} else if e, ok := retExpr(x.Else, param); ok {
+								item = fmt.Sprintf(".ifLt %d %s (some %s)", k, t, e)
+							}
+						}
+					}
+				}
+			}
+		}
+		out = append(out, item)
+	}
+	return "[" + strings.Join(out, ", ") + "]"
+}
+
 // ---------------------------------------------------------------- hidden state
 //
 // The exported helpers must be functions of their argument.  Facts transcribed from *all*
@@ -574,7 +674,7 @@ func main() {
 	}
 
 	var b strings.Builder
-	b.WriteString("/- generated by xlate/c19 from util/dateutil — do not edit -/\nnamespace Gen.C19\n\n")
+	b.WriteString("/- generated by xlate/c19 from util/dateutil — do not edit -/\nimport Golib.Cal.PadIR\nnamespace Gen.C19\n\n")
 
 	// tables
 	intsOf := func(name string) []int64 {
@@ -729,6 +829,27 @@ func main() {
 			ps = pieces(fn)
 		}
 		fmt.Fprintf(&b, "def pieces_%s : List String := %s\n", name, strList(ps))
+		// the same as a program for Cal.evalPieces
+		items := make([]string, len(ps))
+		for i, p := range ps {
+			switch {
+			case p == "field:date":
+				items[i] = ".date"
+			case strings.HasPrefix(p, "lit:"):
+				var xs []int64
+				for _, r := range p[4:] {
+					xs = append(xs, int64(r))
+				}
+				items[i] = ".lit " + natList(xs)
+			case p == "call:mk2":
+				items[i] = ".callMk2"
+			case p == "call:mk3":
+				items[i] = ".callMk3"
+			default:
+				items[i] = ".other"
+			}
+		}
+		fmt.Fprintf(&b, "def prog_%s : List Cal.Piece := [%s]\n", name, strings.Join(items, ", "))
 	}
 
 	// DateFormat: per letter widths
@@ -845,6 +966,43 @@ func main() {
 	fmt.Fprintf(&b, "def parseDateArgLetters : List Nat := %s\n", natList(dateArgs))
 	fmt.Fprintf(&b, "def parseNanosPerMilli : Nat := %d\n", nsMul)
 	fmt.Fprintf(&b, "def parseUnixNanoDivisor : Nat := %d\n", msDiv)
+
+	// pad functions as PadStmt programs, Sprintf formats as code points
+	for _, name := range []string{"mk2", "mk3"} {
+		fmt.Fprintf(&b, "def %s : List Cal.PadStmt := %s\n", name, padProgram(funcs[name]))
+	}
+	fmtOf := func(fname string) string {
+		fn := funcs[fname]
+		res := "[]"
+		if fn == nil {
+			return res
+		}
+		cnt := 0
+		ast.Inspect(fn.Body, func(n ast.Node) bool {
+			if c, ok := n.(*ast.CallExpr); ok {
+				if sel, ok := c.Fun.(*ast.SelectorExpr); ok && sel.Sel.Name == "Sprintf" && len(c.Args) >= 1 {
+					cnt++
+					if l, ok := c.Args[0].(*ast.BasicLit); ok {
+						if str, err := strconv.Unquote(l.Value); err == nil {
+							var xs []int64
+							for _, r := range str {
+								xs = append(xs, int64(r))
+							}
+							res = natList(xs)
+						}
+					}
+				}
+			}
+			return true
+		})
+		if cnt != 1 {
+			return "[]"
+		}
+		return res
+	}
+	fmt.Fprintf(&b, "def fmt_open : List Nat := %s\n", fmtOf("open"))
+	fmt.Fprintf(&b, "def fmt_hhmmss : List Nat := %s\n", fmtOf("hhmmss"))
+	fmt.Fprintf(&b, "def fmt_hhmm : List Nat := %s\n", fmtOf("hhmm"))
 
 	statelessness(&b, fset, dir)
 
